@@ -22,13 +22,14 @@ RULE = (
     "resource type 17 vs CD/DVD/floppy items (14/15/16) that also reference the disk section. VirtualBox: nested media "
     "registries (Machine or Global), HardDisk vs DVD/Floppy images, formats and types mixed. PVS: Hdd vs "
     "CdRom/Fdd/other devices at any depth. Oracle: the model's hard-disk backing files (sorted list for VMX, multiset "
-    "otherwise; VirtualBox: all top-level Normal VDI disks present, no DVD/floppy image, anything else only from the "
-    "'unspecified' set of non-VDI / non-Normal / child disks); dictionary laws for VMX.parse. Non-trivial: >= 1 disk "
+    "otherwise; VirtualBox: all Normal VDI disks at any registry depth present, no DVD/floppy image, anything else only "
+    "from the 'unspecified' set of non-VDI / non-Normal / type-less child disks); file names contain blanks, '#', '=', ';', quotes "
+    "and non-ASCII characters; dictionary laws for VMX.parse. Non-trivial: >= 1 disk "
     "and >= 1 non-disk device; distinct = (syntax, device model)."
 )
 ASSUMPTIONS = [
     "dot-less VMX keys that begin with a device-class name, OVF Disk elements without fileRef, disk items without HostResource and RDM device types are not generated (outside the statement)",
-    "VirtualBox disks that are not (top-level, type Normal, format VDI) are 'unspecified': they may or may not be listed",
+    "VirtualBox disks that are not (type Normal, format VDI) or that carry no type attribute are 'unspecified': they may or may not be listed",
     "held means: held on the executions listed, not verified for all configurations",
 ]
 MINIMA = {"quick": {"documents": 2000, "vmx_bus_unit_collisions": 50, "ovf_removable_items_pointing_at_disks": 50}, "thorough": {"documents": 50000}}
